@@ -199,6 +199,22 @@ def run(ctx):
                         continue
             bad.append(fmt(t)[:100])
         run.inst("C14.C", "canonical:" + p.split("::")[-1], not bad and n > 0, "every successful result is a serialize() result or the world cell%s" % ("" if not bad else "; raw values returned: %s" % bad), where(ft.fn["span"]))
+    # ---------------- C (collections): compact / uncompact return only canonical IDs - every ID that reaches the result is
+    # the output of serialize / cell_to_parent / cell_to_children (or the world cell), or an element of a collection of which
+    # that holds; a raw element of the input slice must not travel through untouched (an alias with stray bits below the
+    # marker, or a bit pattern that is no cell, would come back as it went in)
+    CANON = (SER, S + "cell_to_children", S + "cell_to_parent")
+    for p in ("a5::core::compact::compact", "a5::core::compact::uncompact"):
+        if p not in facts.fns:
+            run.missing("C14.C", p)
+            continue
+        ft = fn_terms(facts, p)
+        raw = _raw_ids_in_result(facts, ft, CANON)
+        for site, what in raw:
+            run.inst("C14.C", "canonical:%s:%s" % (p.split("::")[-1], site), False,
+                     "an ID reaches the result without passing through serialize / cell_to_parent / cell_to_children: %s" % what, where(ft.fn["span"]))
+        if not raw:
+            run.inst("C14.C", "canonical:" + p.split("::")[-1], True, "every ID in the result is a serialize / cell_to_parent / cell_to_children output, the world cell, or an element of a collection of such", where(ft.fn["span"]))
     # ---------------- thorough: the release profile has the same arithmetic sites
     if ctx.facts_release is not None:
         diffs = []
@@ -211,6 +227,145 @@ def run(ctx):
             if a != b:
                 diffs.append((p, a, b))
         run.inst("C14.X", "release-profile-same-sites", not diffs, "arithmetic/shift/div/index operations per function are identical in the overflow-checked and the release-like extraction (%d functions compared; differences: %s)" % (len(facts.fns), diffs[:3]))
+
+
+def _raw_ids_in_result(facts, ft, CANON):
+    """[(site key, description)] for every way a non-canonical ID can get into the vector the function returns.
+    Provenance over the function's own terms: values, vectors (by local), iteration items and element reads."""
+    from ..query import loops_of, mutators_of
+    lps = loops_of(ft)
+    items = {}
+    for l in lps:
+        if l.item is not None and l.source is not None:
+            items[strip_site(l.item)] = l.source
+    memo = {}
+    raw = []
+
+    def peel(t):
+        while True:
+            if t[0] in ("ref", "deref"):
+                t = t[2] if t[0] == "ref" else t[1]
+            elif t[0] == "cast" and t[1] == "PointerCoercion":
+                t = t[2]
+            elif t[0] == "call" and isinstance(t[1], str) and t[2] and t[1].split("::")[-1] in ("clone", "copied", "cloned", "deref", "as_slice", "to_vec", "iter", "into_iter", "by_ref", "borrow", "enumerate"):
+                t = t[2][0]
+            else:
+                return t
+
+    def value_ok(t, depth=0):
+        """is the ID-valued (or ID-collection-valued) term canonical?"""
+        if depth > 40:
+            return False
+        t = peel(t)
+        k = strip_site(t)
+        if k in memo:
+            return memo[k]
+        memo[k] = True          # a cycle adds nothing new
+        r = _value_ok(t, depth)
+        memo[k] = r
+        return r
+
+    def _value_ok(t, depth):
+        if strip_site(t) in items:
+            return value_ok(items[strip_site(t)], depth + 1)     # a loop item: judged as the sequence it comes from
+        if t[0] == "const":
+            return const_int(t) == 0 or (len(t) > 3 and isinstance(t[3], str) and t[3].endswith("WORLD_CELL"))
+        if t[0] == "payload":
+            return value_ok(t[2], depth + 1) if t[1] in ("Ok", "Some") else True
+        if t[0] == "field" and str(t[2]).isdigit():
+            # a component of an iteration item (`(i, &cell)` of enumerate / zip): judged as the item
+            return value_ok(t[1], depth + 1)
+        if t[0] == "call" and isinstance(t[1], str):
+            if t[1] in CANON:
+                return True
+            short = t[1].split("::")[-1]
+            if short in ("collect", "from_iter", "unwrap", "expect", "branch") and t[2]:
+                return value_ok(t[2][0], depth + 1)
+            if short in ("new", "with_capacity") and ("Vec" in t[1] or "HashSet" in t[1] or "BTreeSet" in t[1]):
+                return True
+            if short == "map" and len(t[2]) == 2:
+                clos = peel(t[2][1])
+                if clos[0] == "fnref":
+                    return clos[1] in CANON
+                if clos[0] == "agg" and clos[1] == "closure" and clos[2] in facts.fns:
+                    fcl = fn_terms(facts, clos[2])
+                    rts = [fcl.return_term(rb) for rb in fcl.return_blocks()]
+                    return bool(rts) and all(_closure_ret_ok(r) for r in rts)
+                return False
+            if short in ("index", "get", "first", "last", "next", "pop") and t[2]:
+                return value_ok(t[2][0], depth + 1)       # an element of a collection
+            if short in ("chain", "zip") and len(t[2]) == 2:
+                return value_ok(t[2][0], depth + 1) and value_ok(t[2][1], depth + 1)
+            return False
+        if t[0] == "index":
+            return value_ok(t[1], depth + 1)
+        if t[0] == "agg" and t[1] in ("vec", "array", "tuple"):
+            return all(value_ok(x, depth + 1) for x in t[3])
+        if t[0] == "agg" and t[1] == "adt" and isinstance(t[2], str) and t[2].split("::")[-1] in ("Ok", "Some") and t[3]:
+            return value_ok(t[3][0], depth + 1)
+        if t[0] == "param":
+            return False                                     # the raw input
+        if t[0] in ("phi", "escaped"):
+            if strip_site(t) in items:
+                return value_ok(items[strip_site(t)], depth + 1)
+            local = t[3] if t[0] == "phi" else t[1]
+            return vec_ok(local, depth + 1) if _is_coll(local) else (t[0] == "phi" and all(value_ok(o, depth + 1) for o in ft.phi_operands(t).values()))
+        return False
+
+    def _closure_ret_ok(r):
+        r0 = r
+        while r0[0] in ("ref", "deref"):
+            r0 = r0[2] if r0[0] == "ref" else r0[1]
+        return r0[0] == "call" and r0[1] in CANON
+
+    def _is_coll(local):
+        ty = ft.fn["locals"][local]["ty"]
+        return any(s_ in ty for s_ in ("Vec<", "HashSet<", "BTreeSet<", "[u64"))
+
+    vmemo = {}
+
+    def vec_ok(local, depth):
+        if local in vmemo:
+            return vmemo[local]
+        vmemo[local] = True
+        ok = True
+        key = "_%d" % local
+        # whole-local definitions
+        for b in sorted(ft.cfg.reach):
+            for pos in ft._defs[b].get(local, []):
+                kind = ft._kinds[(b, pos, local)]
+                if kind[0] in ("assign", "call") and not (kind[0] == "assign" and kind[1]["place"]["proj"]):
+                    dt = ft.def_term(b, pos, local)
+                    if not value_ok(dt, depth + 1):
+                        ok = False
+                        raw.append(("def:%s" % (ft.fn["locals"][local].get("name") or key), fmt(dt)[:100]))
+        for c in mutators_of(ft, key):
+            short = (c.callee or "").split("::")[-1]
+            if short in ("push", "insert", "push_back") and len(c.args) >= 2:
+                if not value_ok(c.args[-1], depth + 1):
+                    ok = False
+                    raw.append(("push:%s" % (ft.fn["locals"][local].get("name") or key), fmt(c.args[-1])[:100]))
+            elif short in ("extend", "append", "extend_from_slice") and len(c.args) == 2:
+                if not value_ok(c.args[1], depth + 1):
+                    ok = False
+                    raw.append(("extend:%s" % (ft.fn["locals"][local].get("name") or key), fmt(c.args[1])[:100]))
+        vmemo[local] = ok
+        return ok
+
+    for t in returns_under(ft, {}):
+        if is_variant(t, "Err") or (t[0] == "call" and t[1].endswith("::from_residual")):
+            continue
+        v = t[3][0] if is_variant(t, "Ok") else t
+        if not value_ok(v):
+            if not raw:
+                raw.append(("result", fmt(v)[:100]))
+    # one report per distinct site
+    seen, out = set(), []
+    for k, w_ in raw:
+        if k not in seen:
+            seen.add(k)
+            out.append((k, w_))
+    return out
 
 
 def _by_kind(obs):
